@@ -31,7 +31,7 @@ PROP_VOCAB = [
     "chi", "psi", "omega",
 ]
 PATH_VOCAB = ["petId", "owner-id", "item_id", "Key", "sub2", "zone"]
-QUERY_VOCAB = ["q", "page", "pageSize", "sort-by", "filter.name", "include_deleted", "fromDate", "ids", "mode"]
+QUERY_VOCAB = ["q", "page", "pageSize", "sort-by", "filter.name", "include_deleted", "fromDate", "ids", "mode", "filter[tag]", "page size"]
 HEADER_VOCAB = ["X-Trace-Id", "x-request-key", "Api-Version", "XToken", "x_flag"]
 COOKIE_VOCAB = ["session", "csrf-token", "pref_lang", "trackId"]
 STR_ENUM_VALUES = ["red", "Green", "dark blue", "light-grey", "x1", "1st", "teal", "MAUVE"]
